@@ -637,6 +637,11 @@ def rule_evaluated_each_time(ctx: Ctx):
     from . import c01
 
     c01.rule_stored_callable(ctx, rule="C08.fresh")
+    # ... and decided for every instance from that instance's own providers: the class-level specs a guard is declared by are
+    # not written by instance-time code (a "resolved" mark left by the first instance would exempt later ones from the check)
+    from . import c16
+
+    c16.rule_defwrite(ctx, rule="C08.fresh", only={"CallbackSpec", "CallbackSpecList", "SpecListGrouper"})
 
 
 def rule_names_from_any_provider(ctx: Ctx):
@@ -645,6 +650,14 @@ def rule_names_from_any_provider(ctx: Ctx):
     from . import c12
 
     c12.rule_samepath(ctx, rule="C08.when")
+
+
+def rule_name_means_call_or_read(ctx: Ctx):
+    """C08.build: a name in a guard is the provider's callable called, or the provider's attribute/property read - decided on the
+    provider object's own attribute (an injected predicate stored on the instance must be called, not read as an always-true object)."""
+    from . import c07
+
+    c07.rule_provider_kind(ctx, rule="C08.build")
 
 
 def rule_operators_raise_like_python(ctx: Ctx):
@@ -669,4 +682,4 @@ def rule_operators_raise_like_python(ctx: Ctx):
     rep.floor("C08.optable", "combinator / comparator functions", n, 6)
 
 
-RULES = [rule_regex, rule_optable, rule_build, rule_fast, rule_when, rule_fresh, rule_identity, rule_conjunction, rule_evaluated_each_time, rule_names_from_any_provider, rule_operators_raise_like_python]
+RULES = [rule_regex, rule_optable, rule_build, rule_fast, rule_when, rule_fresh, rule_identity, rule_conjunction, rule_evaluated_each_time, rule_names_from_any_provider, rule_operators_raise_like_python, rule_name_means_call_or_read]
